@@ -40,6 +40,8 @@ fn run_engine(prop: &str, s: &mut Sink) {
 pub fn replay_value(rp: &Value) -> Vec<String> {
     match rp["kind"].as_str().unwrap_or("") {
         "isa-l1" => isaeng::replay_l1(rp),
+        "isa-prog" => isaeng::replay_prog(rp),
+        "isa-l4" => isaeng::replay_l4(rp),
         "asm" => text::replay_asm(rp),
         "asm-total" => text::replay_asm_total(rp),
         "disasm" => text::replay_disasm(rp),
